@@ -6,7 +6,9 @@ W = 16
 
 def jobs(tier):
     q = tier == "quick"
-    return [Job("c12_state", "flt-asan", "random", workers=W, cases=350 if q else 6000, maxtime=240 if q else 1800)]
+    return [Job("c12_state", "flt-asan", "random", workers=W, cases=350 if q else 6000, maxtime=240 if q else 1800),
+            # the fixed-point build has its own encoder state layout (silk/fixed) and arithmetic: same experiments, other seed stream
+            Job("c12_state", "fix-asan", "random", workers=W, cases=120 if q else 3000, maxtime=120 if q else 900, seed_salt=21)]
 
 
 PROP = dict(
